@@ -382,7 +382,7 @@ example :
 /-- regenerated operators and constants the statements above were proved against -/
 example : Gen.Store.pruneRefuseStrict = true ∧ Gen.Store.farthestUpdateStrict = true ∧
     Gen.Store.withinRangeExclusive = true ∧ Gen.Store.cleanupFromInclusive = true ∧
-    Gen.Store.maxRecordsCount = 16384 ∧ Gen.Store.cleanupDivisor = 10 := by decide
+    Gen.Store.maxRecordsCount = 16384 ∧ Gen.Store.cleanupMin = 1638 := by decide
 
 #print axioms SafeNet.Props.C10.views_agree
 #print axioms SafeNet.Props.C10.at_capacity_decision
